@@ -219,6 +219,7 @@ def gen_case(rng: random.Random, pid: str, uid: str) -> dict:
             pre_nt[s["name"]] = gen_dur() if not s["dur_int"] else rng.choice([0, 1000000, 2000000])
     return {"uid": uid, "pid": pid, "auto": auto, "grid": grid, "period": period, "classes": classes,
             "final": classes[-1]["name"], "script": script, "pre_nt": pre_nt, "sibling": (not auto) and rng.random() < 0.25,
+            "instantiate_bases": len(classes) > 1 and rng.random() < 0.5,
             "always_disable": always_disable,
             "hseed": rng.randrange(1 << 30), "ops": None}
 
@@ -333,8 +334,33 @@ def build_class(case, base_cls, suffix=""):
             body["done"] = done
         cls = type(c["name"] + suffix, bases, body)
         built[c["name"]] = cls
+        if case.get("instantiate_bases") and c["name"] != case["final"]:
+            # a base class that is a legal machine of its own is instantiated (and bound) before the class under test
+            # exists ("a robot has both the generic and the specialised mechanism"): whatever that leaves behind on
+            # the base class must not show in the subclass
+            beff = {}
+            for cc in spec_mro(case, c["name"]):
+                for s in cc["states"]:
+                    beff.setdefault(s["name"], s)
+            if sum(1 for s in beff.values() if s["first"]) == 1 and sum(1 for s in beff.values() if s["kind"] == "default") <= 1:
+                try:
+                    import logging
+                    from magicbot.magic_tunable import setup_tunables
+                    b = cls()
+                    b.logger = logging.getLogger("vfbase")
+                    b._vf_log, b._vf_counts, b._vf_script = [], {}, {}
+                    setup_tunables(b, f"{case['uid']}b{c['name']}")
+                    b.engage()
+                    b.execute()
+                    b.done()
+                    BASE_INSTANCES.append(b)
+                except Exception:  # noqa  (a base that cannot run alone is simply not used)
+                    pass
     holder["cls"] = built[case["final"]]
     return holder["cls"]
+
+
+BASE_INSTANCES = []
 
 
 class Machine:
@@ -385,6 +411,10 @@ class Machine:
         self._pub(nm).set(self._val(nm, us))
 
     def close(self):
+        for b in BASE_INSTANCES:
+            for e in getattr(b, "_tunables", {}).values():
+                e.close()
+        del BASE_INSTANCES[:]
         for h in self.handles:
             h.close()
         for p in self.pubs.values():
